@@ -34,6 +34,8 @@ func streamFlushed(w io.Writer) int { return 0 }
 func ghostStream(w io.Writer) bool  { return true }
 func ghostFail() bool               { return true }
 func ghostReader(r io.Reader) bool  { return true }
+func inputEnded(r io.Reader) bool   { return false }
+func ioFailed() bool                { return false }
 func ghostClock() bool              { return true }
 func all(x interface{}) bool        { return true }
 func fresh(x interface{}) bool      { return true }
@@ -55,6 +57,7 @@ func protoOK() bool {
 
 func protoErrsOK() bool {
 	return ErrNetworkError != nil && ErrInvalidCmd != nil && ErrValueTooLarge != nil && ErrOOM != nil && ErrBadDataChunk != nil && ErrNonMemcacheCmd != nil && ErrKeyLength != nil &&
+		ErrNetworkError != ErrInvalidCmd && ErrNetworkError != ErrValueTooLarge && ErrNetworkError != ErrOOM && ErrNetworkError != ErrBadDataChunk && ErrNetworkError != ErrNonMemcacheCmd &&
 		0 <= config.MCConf.BodyMax && config.MCConf.BodyMax < 1<<31
 }
 
@@ -98,6 +101,7 @@ func specCmdShape(req *Request) bool {
 //@   modifies all(req), ghostNoReply[req], ghostHandedOver[req], ghostFail(), ghostClock(), ghostReader(b), cmem.DBRL.SetData.Size, cmem.DBRL.SetData.MaxSize, cmem.DBRL.SetData.Count, cmem.DBRL.SetData.MaxCount, cmem.AllocRL.Size, cmem.AllocRL.MaxSize, cmem.AllocRL.Count, cmem.AllocRL.MaxCount
 //@   ensures [assumed] ghostNoReply[req] == (result0 == nil && req.NoReply) && !ghostHandedOver[req]
 //@   ensures req.Item != nil ==> fresh(req.Item)
+//@   ensures result0 == ErrNetworkError ==> ioFailed() || inputEnded(b)      // C11: the connection is given up only if reading from it failed or it ended - never because of what a well-formed command looks like (e.g. the length of its line)
 //@   ensures result0 == nil ==> specCmdShape(req)
 //@   ensures result0 == nil && req.Item != nil && req.Item.CArray.Cap > 0 ==> int64(req.Item.CArray.Cap) <= config.MCConf.BodyMax      // C11: an over-long value is rejected, never allocated
 //@   ensures result0 != nil ==> cmem.DBRL.SetData.Count == old(cmem.DBRL.SetData.Count) && cmem.DBRL.SetData.Size == old(cmem.DBRL.SetData.Size)
